@@ -110,3 +110,31 @@ Section Life.
     | _, _, _ => false
     end.
 End Life.
+
+(* ---- several byte streams at once: one per (bridged connection, direction), numbered ---- *)
+Definition mst := nat -> (list nat * list frame).
+Definition m_init : mst := fun _ => ([], []).
+Definition upd (m : mst) (k : nat) (v : list nat * list frame) : mst := fun j => if j =? k then v else m j.
+Inductive mev :=
+| MWrite (k : nat) (bs : list nat)   (* Write on the sending end of stream k *)
+| MRead (k : nat) (n : nat).         (* Read with a buffer of n bytes on the receiving end of stream k *)
+
+(* one event; a Read that finds nothing yet blocks and is represented by no output and no change *)
+Definition mstep (m : mst) (e : mev) : mst * list (nat * list nat) :=
+  match e with
+  | MWrite k bs => (upd m k (fst (m k), snd (m k) ++ [conn_write bs]), [])
+  | MRead k n => match conn_read (m k) n with
+                 | (RData bs, st') => (upd m k st', [(k, bs)])
+                 | _ => (m, [])
+                 end
+  end.
+Fixpoint mtrace (m : mst) (es : list mev) : list (nat * list nat) :=
+  match es with [] => [] | e :: r => let '(m', out) := mstep m e in out ++ mtrace m' r end.
+(* bytes returned by the reads of stream k / bytes written to stream k *)
+Fixpoint got (k : nat) (t : list (nat * list nat)) : list nat :=
+  match t with [] => [] | (j, bs) :: r => if j =? k then bs ++ got k r else got k r end.
+Fixpoint written (k : nat) (es : list mev) : list nat :=
+  match es with [] => [] | MWrite j bs :: r => if j =? k then bs ++ written k r else written k r | _ :: r => written k r end.
+Definition ev_ok (e : mev) : Prop :=
+  match e with MWrite _ bs => Forall (fun b => b < 256) bs | MRead _ n => 1 <= n end.
+
